@@ -93,6 +93,8 @@ class Reader:
 
     def res(self, node):
         """canonical text of a value inside a selection predicate; a name bound to a predicate resolves to its conditions"""
+        if isinstance(node, ast.Name) and node.id in self.env and isinstance(self.env[node.id], tuple) and self.env[node.id][:1] in (("predmap",), ("compvar",)):
+            return self.env[node.id]
         if isinstance(node, ast.Name) and node.id in self.env and isinstance(self.env[node.id], tuple) and self.env[node.id][:1] == ("pred",):
             return self.env[node.id][1]
         if isinstance(node, ast.Name) and node.id in self.env and isinstance(self.env[node.id], tuple) and self.env[node.id][:1] == ("fframe",):
@@ -135,6 +137,21 @@ class Reader:
                     fp = parse_pred(s.value.slice, self.frame, self.res)
                     if fp is not None:
                         self.env[t.id] = ("fframe", frozenset(fp))
+                        return
+                # a map of predicates built once:  masks = {k: df["A"] == k for k in keys}
+                if isinstance(s.value, ast.DictComp) and len(s.value.generators) == 1 and not s.value.generators[0].ifs \
+                        and isinstance(s.value.generators[0].target, ast.Name) and isinstance(s.value.key, ast.Name) \
+                        and s.value.key.id == s.value.generators[0].target.id:
+                    k = s.value.key.id
+                    saved = self.env.get(k)
+                    self.env[k] = ("compvar", k)
+                    pm = parse_pred(s.value.value, self.frame, self.res)
+                    if saved is None:
+                        del self.env[k]
+                    else:
+                        self.env[k] = saved
+                    if pm is not None:
+                        self.env[t.id] = ("predmap", k, frozenset(pm))
                         return
                 # a predicate bound to a name:  filt = (df["A"] == x) & (...)
                 pr = parse_pred(s.value, self.frame, self.res)
